@@ -34,7 +34,7 @@ PLAN = {'quick': {'gen': 8}, 'thorough': {'gen': 16, 'tests': 1}}
 REQUIRED_BUCKETS = ['op:Plane()', 'op:Pupil(mask3d)', 'op:multiply', 'op:propagate_dft', 'op:propagate_fft', 'op:fit_tilt',
                     'op:rescale', 'op:adc', 'op:collect_charge', 'op:collect_charge_bayer', 'op:tilt-multiply', 'op:Field(ndarray offset)', 'op:Plane.properties', 'op:pixel', 'op:jitter', 'op:smear',
                     'op:dft2', 'op:idft2', 'op:zernike_fit', 'op:pad', 'op:rebin', 'op:power_spectrum', 'op:Spectrum.multiply',
-                    'op:Spectrum.sample', 'op:Spectrum.bin', 'op:Spectrum.to', 'op:refusals', 'op:fit_tilt:nothing-to-fit', 'op:fit_tilt:inplace', 'op:shot_noise', 'op:read_noise', 'program', 'dft-keys>32',
+                    'op:Spectrum.sample', 'op:Spectrum.bin', 'op:Spectrum.to', 'op:refusals', 'op:fit_tilt:nothing-to-fit', 'op:fit_tilt:inplace', 'op:fit_tilt:reused-plane', 'op:shot_noise', 'op:read_noise', 'program', 'dft-keys>32',
                     'replayed', 'op:dft2:nearby-shifts', 'op:zernike:supplied-coordinates', 'op:Rotate(angle=array)']
 REQUIRED_ANCHORS = ['anchor:_dft2_coords', 'anchor:Plane.__init__', 'anchor:adc', 'anchor:Plane.fit_tilt', 'anchor:Field.__mul__']
 REQUIRED_ORACLES = ['frozen-inputs', 'inputs-unchanged', 'history-deterministic', 'global-rng-untouched', 'global-state-untouched', 'dft-cache-intact',
@@ -298,6 +298,34 @@ def catalogue(lentil, rng):
             p1.fit_tilt(inplace=True)
             w2 = lentil.Wavefront(6e-7) * p2
             return (p1, w2)
+        return a, call
+
+    @op('fit_tilt:reused-plane')
+    def _():
+        # one plane object used for a series of measurements: fitted, given the next OPD map (and amplitude), fitted again.  Every
+        # map handed over stays the caller's, whatever the plane did before it received it
+        shape, a = pupil_args()
+        mono = bool(rng.random() < 0.6)
+        if mono:
+            a['mask'] = np.sum(a['mask'], axis=0)
+        rr = (np.arange(shape[0]) - shape[0] // 2)[:, None] * 1e-3 + np.zeros(shape)
+        cc = (np.arange(shape[1]) - shape[1] // 2)[None, :] * 1e-3 + np.zeros(shape)
+        a['opd'] = a['opd'] + 2e-6 * rr
+        a['opd2'] = np.ascontiguousarray(gen.opd(rng, shape, 6e-7) - 3e-6 * cc, dtype=float)
+        a['opd3'] = np.ascontiguousarray(gen.opd(rng, shape, 6e-7) + 1e-6 * rr - 1e-6 * cc, dtype=float)
+        a['amp2'] = np.ascontiguousarray(a['amp'] * 0.5, dtype=float)
+        first = bool(rng.random() < 0.5)
+        def call(a):
+            p = mk_pupil(a)
+            p.fit_tilt(inplace=True)
+            p.opd = a['opd2']
+            if first:
+                p = p.fit_tilt(inplace=False)
+            p.fit_tilt(inplace=True)
+            p.amplitude = a['amp2']
+            p.opd = a['opd3']
+            p.fit_tilt(inplace=True)
+            return p
         return a, call
 
     @op('rescale')
